@@ -43,7 +43,7 @@ func runC44(c *Ctx) {
 			P + "endBinding":                          {"delete()"},
 		}, "bindings are installed only by an authenticated registration and removed only by endBinding")
 		c.checkWrites("bw", bCur, map[string][]string{P + "dispatchPending": {"++"}}, "worker sequences are assigned contiguously at dispatch")
-		c.checkWrites("bw", bConf, map[string][]string{P + "advanceConfirmed": {"var:confirmed"}}, "a binding's watermark moves only in advanceConfirmed")
+		c.checkWrites("bw", bConf, map[string][]string{P + "advanceConfirmed": {"var:$param"}}, "a binding's watermark moves only in advanceConfirmed")
 		_ = order
 	})
 
